@@ -90,9 +90,30 @@ def normalise_deciders(model):
             else:
                 return False, False
         return True, False
+    class SplitConditionalReturns(ast.NodeTransformer):
+        """`return A if c else B` -> `if c: return A` / `else: return B` (same evaluation order: c, then the chosen branch)"""
+        def visit_Return(self, r):
+            if isinstance(r.value, ast.IfExp):
+                a = self.visit_Return(ast.copy_location(ast.Return(value=r.value.body), r))
+                b = self.visit_Return(ast.copy_location(ast.Return(value=r.value.orelse), r))
+                node = ast.copy_location(ast.If(test=r.value.test, body=a if isinstance(a, list) else [a],
+                                                orelse=b if isinstance(b, list) else [b]), r)
+                ast.fix_missing_locations(node)
+                return node
+            return r
+
+        def visit_FunctionDef(self, fnode):
+            return fnode            # nested functions are left alone
     for name, mem in list(ci.members.items()):
         if name in ('run', '__init__') or mem.kind != 'method' and getattr(mem, 'kind', 'method') in ('property', 'setter'):
             continue
+        if any(isinstance(r, ast.Return) and isinstance(r.value, ast.IfExp) for r in ast.walk(mem.node)):
+            import copy as _copy
+            trial = _copy.deepcopy(mem.node)
+            trial.body = [SplitConditionalReturns().visit(b) for b in trial.body]
+            ok_t, always_t = pure(trial.body)
+            if ok_t and always_t:
+                mem.node.body = trial.body
         ok, always = pure(mem.node.body)
         if not (ok and always):
             continue
